@@ -217,10 +217,11 @@ def seam_and_corner_pairs(rng, gamma, n, with_addr=False):
     closed = bool(gamma.closed)
     times = [(0.0, 1.0), (0.0, 0.5), (0.5, 1.0), (0.25, 0.5), (0.5, 0.75), (0.0, 0.25), (0.75, 1.0)]
     base = 2 if (closed and K == 1) else 0   # one-piece closed curve: at least 4 elements around it
-    for _ in range(n):
+    kinds = ['seam', 'corner', 'seam', 'nested', 'interior', 'gap'] if closed else ['corner', 'nested', 'interior', 'gap']
+    off = rng.randrange(len(kinds))
+    for it in range(n):
         i, j = base + rng.randint(0, 4), base + rng.randint(0, 4)
-        kind = rng.choice(['seam', 'seam', 'corner', 'nested', 'interior', 'gap'] if closed else
-                          ['corner', 'nested', 'interior', 'gap'])
+        kind = kinds[(it + off) % len(kinds)]   # stratified: every class of configuration gets its share of n
         tpair = None
         if kind == 'seam':
             A, B = (0, i, 0), (K - 1, j, 2**j - 1)
